@@ -1,4 +1,4 @@
-\* C39 trace validation: the constants of TSMEngine.tla that the contract layer uses (the recorder's abstract domains)
+\* C39 classification of a REJECTED trace only (known finding stale_value_during_inflight_delete): Relaxed = TRUE; the constants of TSMEngine.tla that the contract layer uses (the recorder's abstract domains)
 SPECIFICATION TSpec
 CONSTANTS
   Keys = {1, 2, 3}
@@ -14,7 +14,7 @@ CONSTANTS
   SplitWrites = FALSE
   SnapDeleteOverlap = FALSE
   MaxOps = 0
-  Relaxed = FALSE
+  Relaxed = TRUE
 INVARIANTS TModelTyped
 CONSTRAINT Mark
 POSTCONDITION Accepted
